@@ -118,7 +118,7 @@ pub fn execute(c: &Call) -> String {
             }
         }
         Call::Graph(g) => {
-            let case = crate::props::graphs::GraphCase { g: g.clone(), fault_sel: 3, fault_kind: 0 };
+            let case = crate::props::graphs::GraphCase { g: g.clone(), tracked_header: g.labels.len() % 2 == 0, fault_sel: 3, fault_kind: 0 };
             match crate::props::graphs::check_graph(&case, &mut Acc::new(), false) {
                 Verdict::Fail(e) => format!("graph-fail {e}"),
                 _ => "graph-ok".to_string(),
